@@ -110,8 +110,94 @@ class EarlyReturner(ast.NodeTransformer):
         return node
 
 
+class Extractor(ast.NodeTransformer):
+    """extract-method: in every method, the first run of >= 2 consecutive
+    top-level statements that are plain calls / attribute stores (no local is
+    bound, no control flow) moves into a new private method of the class,
+    which receives the locals it reads as parameters."""
+    def visit_ClassDef(self, node):
+        new_body = []
+        for item in node.body:
+            new_body.append(item)
+            if isinstance(item, ast.FunctionDef) and item.args.args and \
+                    item.args.args[0].arg == 'self' and \
+                    not any(ast.unparse(d) in ('staticmethod', 'classmethod', 'property')
+                            or ast.unparse(d).endswith('.setter')
+                            for d in item.decorator_list):
+                helper = self._extract(item, node.name)
+                if helper is not None:
+                    new_body.append(helper)
+        node.body = new_body
+        return node
+
+    @staticmethod
+    def _simple(st):
+        if isinstance(st, ast.Expr) and isinstance(st.value, ast.Call):
+            ok = True
+        elif isinstance(st, (ast.Assign, ast.AugAssign)):
+            targets = st.targets if isinstance(st, ast.Assign) else [st.target]
+            ok = all(isinstance(t, ast.Attribute) or isinstance(t, ast.Subscript)
+                     for t in targets)
+        else:
+            return False
+        for x in ast.walk(st):
+            if isinstance(x, (ast.Yield, ast.YieldFrom, ast.Await, ast.NamedExpr,
+                              ast.Lambda, ast.ListComp, ast.SetComp, ast.DictComp,
+                              ast.GeneratorExp)):
+                return False
+            if isinstance(x, ast.Name) and isinstance(x.ctx, ast.Store):
+                return False
+            if isinstance(x, ast.Call) and isinstance(x.func, ast.Name) \
+                    and x.func.id == 'super':
+                return False
+        return ok
+
+    def _extract(self, fn, cls_name=''):
+        body = fn.body
+        start = 1 if body and isinstance(body[0], ast.Expr) and \
+            isinstance(body[0].value, ast.Constant) else 0
+        i = start
+        while i < len(body):
+            j = i
+            while j < len(body) and self._simple(body[j]):
+                j += 1
+            if j - i >= 2:
+                break
+            i = max(j, i + 1)
+        else:
+            return None
+        run = body[i:j]
+        local_names = set(a.arg for a in fn.args.args + fn.args.kwonlyargs)
+        if fn.args.vararg:
+            local_names.add(fn.args.vararg.arg)
+        if fn.args.kwarg:
+            local_names.add(fn.args.kwarg.arg)
+        for x in ast.walk(fn):
+            if isinstance(x, ast.Name) and isinstance(x.ctx, ast.Store):
+                local_names.add(x.id)
+        used = []
+        for st in run:
+            for x in ast.walk(st):
+                if isinstance(x, ast.Name) and x.id in local_names \
+                        and x.id != 'self' and x.id not in used:
+                    used.append(x.id)
+        # unique per class: a subclass must not override the base's helper
+        name = '_x_%s_%s_part' % (cls_name.lower(), fn.name.strip('_'))
+        helper = ast.FunctionDef(
+            name=name,
+            args=ast.arguments(posonlyargs=[], args=[ast.arg('self')] + [
+                ast.arg(u) for u in used], kwonlyargs=[], kw_defaults=[],
+                defaults=[]),
+            body=run, decorator_list=[], type_params=[])
+        call = ast.Expr(ast.Call(
+            ast.Attribute(ast.Name('self', ast.Load()), name, ast.Load()),
+            [ast.Name(u, ast.Load()) for u in used], []))
+        fn.body = body[:i] + [call] + body[j:]
+        return helper
+
+
 MODES = {'rename': LocalRenamer, 'ifswap': IfSwapper, 'nest': AndNester,
-         'earlyret': EarlyReturner}
+         'earlyret': EarlyReturner, 'extract': Extractor}
 
 
 def transform(src, mode):
